@@ -181,3 +181,17 @@ void h_pad_fail(void) {
     VWITNESS("stored");
   }
 }
+
+/* ---- C06/C14/C19: the node of a raw value / copied string is released when the value is replaced, and only once */
+#ifndef RAWKIND
+#define RAWKIND 0
+#endif
+void h_raw_release(void) {
+  uint8_t p[3] = {vin_u8(), vin_u8(), 0}; int32_t x = (int32_t)vin_u32();
+  struct S_Hist h; memset(&h, 0, sizeof h); w_raw_release(p, (uint32_t)x, RAWKIND, &h);
+  VASSERT(h.f5 == 1 && h.f3 == 0, "stored; nothing released yet");
+  VASSERT(h.f7 == 1, "replacing the value releases its string node at once (reference count back to zero)");
+  VASSERT(h.f0 == 1 && (int32_t)h.f8.e[0] == x, "the new value is in place");
+  VASSERT(h.f4 == 1 && h.f1 == 1, "one block was requested (the node) and it is released exactly once, not again at destruction");
+  VWITNESS("any");
+}
